@@ -167,6 +167,35 @@ func entityPrograms() []string {
 		"// @scope: recv,deliver\nsub a { call b; }\nsub b { set req.http.X = \"1\"; call d; }\n// @scope: fetch\nsub d { set beresp.ttl = 1s; }\nsub e { call e; }\nsub vcl_recv {\n  #FASTLY recv\n  call a;\n  call e;\n}\n",
 		"sub fa(STRING var.x) STRING { return fb(var.x); }\nsub fb(STRING var.y) STRING { return var.y \"b\"; }\nsub fc() STRING { return fc(); }\nsub vcl_recv {\n  #FASTLY recv\n  set req.http.X = fa(\"x\") fc();\n}\n",
 	)
+	// subroutines whose scope is the union of several callers' scopes, using variables / statements that several of those scopes lack
+	out = append(out,
+		"sub shared { set req.http.S = beresp.http.Server; set req.http.T = obj.ttl; }\nsub vcl_recv {\n  #FASTLY recv\n  call shared;\n}\nsub vcl_deliver {\n  #FASTLY deliver\n  call shared;\n}\nsub vcl_log {\n  #FASTLY log\n  call shared;\n}\n",
+		"sub shared { set resp.http.S = \"1\"; esi; set bereq.http.B = client.ip; }\nsub vcl_recv {\n  #FASTLY recv\n  call shared;\n}\nsub vcl_hit {\n  #FASTLY hit\n  call shared;\n}\nsub vcl_miss {\n  #FASTLY miss\n  call shared;\n}\nsub vcl_pass {\n  #FASTLY pass\n  call shared;\n}\nsub vcl_fetch {\n  #FASTLY fetch\n  call shared;\n}\nsub vcl_error {\n  #FASTLY error\n  call shared;\n}\n",
+		"// @scope: recv, hash, deliver, log\nsub shared { set beresp.ttl = 1s; set req.http.H = req.hash; synthetic \"x\"; }\nsub vcl_recv {\n  #FASTLY recv\n  call shared;\n}\n",
+	)
+	return out
+}
+
+// regexPrograms: regular expression literals that end inside a group, class, quantifier or escape, in every place a pattern is
+// looked at (if / else if conditions count capture groups; regsub arguments and BOOL assignments do not)
+func regexPrograms() []string {
+	pats := []string{"(?", "(", "(?:", "(?P<", "(?P<n", "(?P<n>", "(?<", "(?<n>a", "[", "[a", "[^", `\`, `a\`, `\\`, "a{", "a{1", "a{1,", "(?i", "(?i)", "(a)(?", "(a)(", "(?#", "(?#c)", "*", "+", "?", ")", "a)", "a|", "(?=", "(?!", "(?<=", "(?<!", "(?>", `\Q`, "(?P=", "", "(a(b(c", "(?'n'a)", "(?|a)", "(?R)", "(?1)", `\g{`, `\k<`, "(?-", "(?^", "(?i:", "(?i-s)", "((?", "(?:(?", "a(?"}
+	ctxs := []string{
+		"if (req.url ~ \"%s\") { esi; }",
+		"if (req.url !~ \"%s\") { esi; }",
+		"if (req.http.A) { esi; } else if (req.url ~ \"%s\") { esi; }",
+		"if (req.http.A == \"1\" && req.url ~ \"%s\" && req.http.B ~ \"(b)\") { set req.http.G = re.group.1; }",
+		"set req.http.A = if(req.url ~ \"%s\", \"a\", \"b\");",
+		"set req.http.A = regsub(req.url, \"%s\", \"x\");",
+		"set req.http.A = regsuball(req.url, \"%s\", \"\\1\");",
+		"declare local var.b BOOL;\n  set var.b = (req.url ~ \"%s\");",
+	}
+	var out []string
+	for _, cx := range ctxs {
+		for _, p := range pats {
+			out = append(out, "sub vcl_recv {\n  #FASTLY recv\n  "+fmt.Sprintf(cx, p)+"\n}\n")
+		}
+	}
 	return out
 }
 
@@ -248,6 +277,9 @@ func gen11(tier string, emit func(Case)) {
 	}
 	for _, s := range arityPrograms() {
 		emit(Case{Kind: "total", Main: s, Label: "arity"})
+	}
+	for _, s := range regexPrograms() {
+		emit(Case{Kind: "total", Main: s, Label: "regex-literal"})
 	}
 	includeGraphs(emit)
 	// (2) determinism under every map iteration order
